@@ -44,7 +44,7 @@ BOUNDS = {
     'quick': 'pipelines of <= 2 instances from all 32 streaming (incl. 4 spellings of + and concat with the stream as argument) '
              '+ 8 search instances, of 3 from a 14-instance core (+ searches); sources 1,2,3,... and cyclic (1,null,2,2,3) bound as '
              'variable $s, k in {0,1,2,3} x {unfinalised iterator, take(k)} + first(), default engine; pipelines of <= 2 also '
-             'with the source as re-iterable input data ($, $.src, $[0]) and under an engine with yaql.memoryQuota (k = 2)',
+             'with the source as re-iterable input data ($, $.src, $[0]), as a finite yaql list of model+50 elements (lambda applications only) and under an engine with yaql.memoryQuota (k = 2)',
     'thorough': 'pipelines of <= 3 instances from all 32 + 8, of 4 from the 14-instance core with k in {0,1,2,3} on the '
                 'unfinalised iterator only; same sources and extra bindings / engine',
 }
@@ -63,10 +63,16 @@ SOURCES = {
 
 
 # how the source reaches the expression, and under which engine
-ROOT = {'var': '$s', 'data': '$', 'data.dict': '$.src', 'data.list': '$[0]'}
+ROOT = {'var': '$s', 'data': '$', 'data.dict': '$.src', 'data.list': '$[0]', 'list': '$s'}
 DEFAULT = ('var', 'default')
-EXTRA_SETTINGS = [('data', 'default'), ('data.dict', 'default'), ('data.list', 'default'), ('var', 'quota'), ('data', 'quota')]
+EXTRA_SETTINGS = [('data', 'default'), ('data.dict', 'default'), ('data.list', 'default'), ('var', 'quota'), ('data', 'quota'),
+                  ('list', 'default')]
 QUOTA = {'yaql.memoryQuota': 100000}
+
+
+class FiniteList(object):
+    def __init__(self, items):
+        self.items, self.pulls = items, 0
 
 
 class ReiterableSource(object):
@@ -222,6 +228,10 @@ def run_impl(text, source, horizon, k, way, setting=DEFAULT):
     if binding == 'var':
         src = yq.Source(horizon, fn=SOURCES[source])
         variables, data = {'s': src}, yq.NO_VALUE
+    elif binding == 'list':
+        # a finite yaql list, longer than anything the k results require: pulls cannot be observed, lambda applications can
+        src = FiniteList(tuple(SOURCES[source](i) for i in range(horizon)))
+        variables, data = {'s': src.items}, yq.NO_VALUE
     else:
         src = ReiterableSource(horizon, SOURCES[source])
         variables, data = None, {'data': src, 'data.dict': {'src': src}, 'data.list': [src]}[binding]
@@ -257,6 +267,8 @@ def verdict(ops, source, k, way, setting=DEFAULT):
         return None, m[1]
     _, mval, mpulls, mticks = m
     status, value, pulls, ticks = run_impl(text_of(ops, k, way, setting[0]), source, mpulls + SLACK, k, way, setting)
+    if setting[0] == 'list':
+        pulls = mpulls          # a list is not consumed by pulling: only the lambda applications are bounded
     detail = 'pulls %d (model %d), lambda applications %d (model %d), status %s' % (pulls, mpulls, ticks, mticks, status)
     if status == 'horizon':
         return (False, 'over-consumption', detail + ': reached the horizon', status, pulls - mpulls), ''
@@ -318,6 +330,16 @@ def failure_key(ops, source, k, way, setting, kind):
     if setting != DEFAULT:
         v, _ = verdict(ops, source, k, way)
         if v is not None and v[0]:          # the same pipeline is within the bound on a plain iterator, default engine
+            if setting[0] == 'list':
+                sub = ops
+                for length in range(1, len(ops)):
+                    found = [ops[a:a + length] for a in range(0, len(ops) - length + 1)
+                             if ops[a + length - 1].search == (way == 'search')]
+                    found = [c for c in found if (lambda w: w is not None and not w[0])(verdict(c, source, k, way, setting)[0])]
+                    if found:
+                        sub = found[0]
+                        break
+                return '%s lambda applications over a list source ops=%s' % (kind, '|'.join(o.fn for o in sub))
             if setting[0] != 'var':
                 return '%s source handed over as input data (re-iterable collection)' % kind
             return '%s engine with yaql.memoryQuota ops=%s' % (kind, '|'.join(o.fn for o in ops))
